@@ -716,7 +716,7 @@ def run_harness(harness, tier="quick", seed=0, replay=None, verbose=True):
     for case in cases:
         try:
             r = explore_case(harness, case, seed, max_paths=max_paths, feasibility=feas,
-                             time_budget=getattr(harness, "CASE_TIME_BUDGET", {}).get(tier, 120 if tier == "quick" else 600))
+                             time_budget=getattr(harness, "CASE_TIME_BUDGET", {}).get(tier, 300 if tier == "quick" else 900))  # (wall-clock: generous, the checks may run on a loaded machine)
         except (HarnessError, C.Unsupported) as e:
             # inconclusive for this case only: violations found in other cases are still reported
             case_problems.append(f"case {case.name}: {type(e).__name__}: {e}")
